@@ -437,6 +437,26 @@ func run(t *testing.T, tape *simrt.Tape) *common.Outcome {
 		settle(2 * time.Second)
 		// past accept (15 s), negotiation, dial and keep-alive timeouts
 		settle(3 * time.Minute)
+		// whatever happened to the stream, nothing opens streams any more: on connections that are still
+		// open no stream may remain charged (a failed or finished stream releases what it acquired without
+		// waiting for its connection to close)
+		for _, nd := range []struct {
+			name   string
+			closed bool
+			rm     network.ResourceManager
+		}{{"A", closedA, a.Rcmgr}, {"B", closedB, b.Rcmgr}} {
+			if nd.closed {
+				continue
+			}
+			rm := nd.rm
+			if w, ok := rm.(*simhost.RefusingRcmgr); ok {
+				rm = w.ResourceManager
+			}
+			st := rm.(rcmgr.ResourceManagerState).Stat()
+			if st.System.NumStreamsInbound != 0 || st.System.NumStreamsOutbound != 0 || st.Transient.NumStreamsInbound != 0 || st.Transient.NumStreamsOutbound != 0 {
+				o.Violate("C04/streams-left-on-open-connection/"+class(p)+"/"+attemptOutcome, "%s: 3 virtual minutes after the attempt (%s, outcome %s) streams are still charged while the connection is open: system=%+v transient=%+v", nd.name, p, attemptOutcome, st.System, st.Transient)
+			}
+		}
 		closeConns()
 		settle(3 * time.Minute)
 
